@@ -9,6 +9,7 @@
 #include "common.h"
 #include <signal.h>
 #include <ctype.h>
+#include <locale.h>
 #include "qlibc.h"
 
 #define FILL 0xAA
@@ -32,7 +33,10 @@ static void put_allocs(void) {
  * transcript then ends exactly before the operation that died */
 void __sanitizer_set_death_callback(void (*cb)(void)) __attribute__((weak));
 static void flush_out(void) { fflush(stdout); }
-static void on_alarm(int sig) { (void) sig; fflush(stdout); _exit(96); }
+static void on_alarm(int sig) {
+    static const char msg[] = "TIMEOUT: the operation did not return within the 10 s watchdog\n";
+    (void) sig; fflush(stdout); if (write(2, msg, sizeof(msg) - 1)) {} _exit(96);
+}
 /* UBSan's fatal path does not run the death callback: make it abort() and flush from SIGABRT */
 const char *__ubsan_default_options(void) { return "abort_on_error=1"; }
 static void on_abort(int sig) { (void) sig; fflush(stdout); _exit(98); }
@@ -187,6 +191,43 @@ int main(void) {
                               : qstrncpy(buf + doff, size, buf + soff, strtoul(w[5], NULL, 10));
             printf("ok "); put_block(buf, a.n); printf(" ret %ld", (long) (r - buf));
             free(buf); free(a.p);
+        } else if (nw == 3 && !strcmp(op, "dupfx")) {
+            /* the FORMAT is the argument: literal bytes, %%, at most one %s (shows ARG) */
+            bytes_t fb, a;
+            if (!unhex(w[1], &fb) || !unhex(w[2], &a)) { printf("bad-op\n"); continue; }
+            char *fmt = cstr_exact(&fb), *x = cstr_exact(&a);
+            rec_on();
+            char *r = qstrdupf(fmt, x);
+            g_rec = 0;
+            if (r == NULL) printf("null"); else { printf("ok "); puthex(stdout, r, strlen(r)); }
+            put_allocs();
+            free(r); free(fmt); free(x); free(fb.p); free(a.p);
+        } else if (nw == 5 && !strcmp(op, "catfx")) {
+            size_t cap = strtoul(w[1], NULL, 10);
+            bytes_t dstb, fb, a;
+            if (!unhex(w[2], &dstb) || !unhex(w[3], &fb) || !unhex(w[4], &a)) { printf("bad-op\n"); continue; }
+            if (cap < dstb.n + 1) cap = dstb.n + 1;
+            char *dst = block_cap(&dstb, cap), *fmt = cstr_exact(&fb), *x = cstr_exact(&a);
+            rec_on();
+            char *r = qstrcatf(dst, fmt, x);
+            g_rec = 0;
+            if (r == NULL) printf("null "); else if (r == dst) printf("ok "); else printf("badret ");
+            put_block(dst, cap);
+            put_allocs();
+            free(dst); free(fmt); free(x); free(dstb.p); free(fb.p); free(a.p);
+        } else if ((nw == 2 || nw == 3) && !strcmp(op, "locale")) {
+            /* locale on DIR: LC_CTYPE := the single-byte Latin-1-layout locale xx_XX the check built
+             * under DIR (isalpha/toupper/isspace then know bytes >= 0x80); locale off: back to "C".
+             * The documented string functions do not depend on it. */
+            if (nw == 3 && !strcmp(w[1], "on")) {
+                bytes_t dir; if (!unhex(w[2], &dir)) { printf("bad-hex\n"); continue; }
+                char *d = cstr_exact(&dir);
+                setenv("LOCPATH", d, 1);
+                printf(setlocale(LC_CTYPE, "xx_XX") != NULL && toupper(0xe9) == 0xc9 ? "ok" : "locale-unavailable");
+                free(d); free(dir.p);
+            } else {
+                printf(setlocale(LC_CTYPE, "C") != NULL ? "ok" : "locale-unavailable");
+            }
         } else if (nw == 2 && !strcmp(op, "comma")) {
             long v = strtol(w[1], NULL, 10);
             rec_on();
